@@ -2,6 +2,7 @@
    axiom-free); proofs in Proofs/PolycoProofs.v about Model/Polyco.v. *)
 From Coq Require Import ZArith QArith Qround List Bool.
 From PB Require Import Model.Polyco Proofs.PolycoProofs Gen.GenPolyco Proofs.PolycoGen.
+From PB Require Import Model.PolycoTimeAt Proofs.PolycoTimeAtProofs Proofs.PolycoTimeAtGen.
 Import ListNotations.
 Open Scope Q_scope.
 
@@ -94,6 +95,66 @@ Proof. exact mk_entry_generated. Qed.
 Theorem C08_generated_lines : forall n, (0 <= n)%Z -> (3 * (gen_coeff_lines n - 1) < n <= 3 * gen_coeff_lines n)%Z.
 Proof. exact coeff_lines_generated. Qed.
 
+(* time_at: the logic around the root finder, for EVERY root finder that returns roots of the residual it is given (scipy's
+   root_scalar is a parameter, Newton's iteration is not modelled): whatever time is returned inverts the prediction; a phase that no
+   validity interval's end predictions strictly enclose never yields a time (ValueError when those predictions can be evaluated); the
+   first guess is the TMID of the first entry whose end-of-span phase is not below the requested phase.  C08_time_at_example: the
+   assumption is satisfiable (a candidate-trying root finder) and all three statements have a concrete two-entry instance. *)
+Theorem C08_time_at_inverts : forall solver eps es ph guess t,
+  solver_returns_roots solver -> time_at solver eps es ph guess = TaTime t ->
+  exists p, predict eps es t = Some p /\ p == ph.
+Proof. exact time_at_inverts. Qed.
+Theorem C08_time_at_refuses : forall solver eps es ph guess,
+  (forall a b pa pb, In (a, b) (intervals eps es) -> predict eps es a = Some pa -> predict eps es b = Some pb -> ~ (pa < ph < pb)) ->
+  forall t, time_at solver eps es ph guess <> TaTime t.
+Proof. exact time_at_refuses. Qed.
+Theorem C08_time_at_value_error : forall solver eps es ph guess,
+  ta_check eps es (intervals eps es) ph = Some false -> time_at solver eps es ph guess = TaValueError.
+Proof. exact time_at_value_error. Qed.
+Theorem C08_time_at_first_guess : forall eps es ph g, ta_guess eps es ph = Some g ->
+  exists i e p, nth_error es i = Some e /\ g = e_tmid e /\ predict eps es (e_end e) = Some p /\ ph <= p /\
+    forall j e', (j < i)%nat -> nth_error es j = Some e' -> exists p', predict eps es (e_end e') = Some p' /\ p' < ph.
+Proof. exact time_at_first_guess. Qed.
+Theorem C08_time_at_solver_exists : forall cands, solver_returns_roots (try_solver cands).
+Proof. exact try_solver_ok. Qed.
+Theorem C08_time_at_example :
+  ta_check (1 # 1000) ex_entries (intervals (1 # 1000) ex_entries) 230 = Some true /\
+  ta_guess (1 # 1000) ex_entries 230 = Some 100 /\
+  time_at (try_solver [1; 15; 7]) (1 # 1000) ex_entries 230 None = TaTime (100 + 15) /\
+  predict (1 # 1000) ex_entries (100 + 15) = Some (inject_Z 200 + (0 + (100 + 15 - 100) * (2 + (100 + 15 - 100) * 0))) /\
+  time_at (try_solver [1; 15; 7]) (1 # 1000) ex_entries 500 None = TaValueError.
+Proof. exact time_at_example. Qed.
+Theorem C08_generated_time_at : forall solver eps es ph guess,
+  time_at solver eps es ph guess =
+  match ta_check eps es (intervals eps es) ph with
+  | None => TaOther
+  | Some false => TaValueError
+  | Some true =>
+      match (match guess with Some g => Some g | None => ta_guess eps es ph end) with
+      | None => TaOther
+      | Some g =>
+          match solver (fun x => match predict eps es (gen_ta_arg g x) with Some p => Some (gen_ta_residual p ph) | None => None end) with
+          | Some x => TaTime (gen_ta_result g x)
+          | None => TaOther
+          end
+      end
+  end.
+Proof. exact time_at_generated. Qed.
+Theorem C08_generated_time_at_check : forall eps es a b r ph,
+  ta_check eps es ((a, b) :: r) ph =
+  match predict eps es a, predict eps es b, ta_check eps es r ph with
+  | Some pa, Some pb, Some c => Some (gen_ta_enclosed pa pb ph || c)
+  | _, _, _ => None
+  end.
+Proof. exact ta_check_generated. Qed.
+Theorem C08_generated_time_at_guess : forall eps es ph,
+  ta_guess eps es ph =
+  match ta_ph_end eps es es ph with
+  | Some l => match nth_error es (searchsorted l gen_ta_searched) with Some e => Some (e_tmid e) | None => None end
+  | None => None
+  end.
+Proof. exact ta_guess_generated. Qed.
+
 Print Assumptions C08_formula.
 Print Assumptions C08_select.
 Print Assumptions C08_derivative.
@@ -103,3 +164,6 @@ Print Assumptions C08_intervals_separated.
 Print Assumptions C08_intervals_endpoints.
 Print Assumptions C08_generated_intervals.
 Print Assumptions C08_generated_entry.
+Print Assumptions C08_time_at_inverts.
+Print Assumptions C08_time_at_first_guess.
+Print Assumptions C08_generated_time_at.
